@@ -117,10 +117,19 @@ func (o *oracle) add(t string) {
 	}
 }
 func (o *oracle) sha(pre []byte) {
-	o.add("sha=" + hx.Hex(pre) + "," + hx.Hex(common.Sha256(pre)))
+	d := refSha256(pre) // crypto/sha256, not the node's wrapper
+	refChecks["sha256"]++
+	if !bytes.Equal(d, common.Sha256(pre)) {
+		disagree("common.Sha256", hx.Hex(pre))
+	}
+	o.add("sha=" + hx.Hex(pre) + "," + hx.Hex(d))
 }
 func (o *oracle) kec(pre []byte) []byte {
-	d := crypto.Keccak256(pre)
+	d := refKeccak(pre) // golang.org/x/crypto, not the node's copies
+	refChecks["keccak"]++
+	if !bytes.Equal(d, crypto.Keccak256(pre)) {
+		disagree("eth_crypto.Keccak256", hx.Hex(pre))
+	}
 	o.add("kec=" + hx.Hex(pre) + "," + hx.Hex(d))
 	return d
 }
@@ -143,9 +152,28 @@ func (o *oracle) recCore(msg []byte, r, sv *big.Int, recid byte, ethLib bool) []
 	var pk []byte
 	var err error
 	if ethLib {
-		pk, err = ethsecp.RecoverPubkey(msg, sig)
+		pk, err = ethsecp.RecoverPubkey(msg, append([]byte{}, sig...))
 	} else {
-		pk, err = secp256k1.RecoverPubkey(msg, sig)
+		pk, err = secp256k1.RecoverPubkey(msg, append([]byte{}, sig...))
+	}
+	if sampled() {
+		// second code path in the repo (the other bundled libsecp256k1) and the curve equation via math/big
+		refChecks["recover"]++
+		var pk2 []byte
+		var err2 error
+		if ethLib {
+			pk2, err2 = secp256k1.RecoverPubkey(msg, append([]byte{}, sig...))
+		} else {
+			pk2, err2 = ethsecp.RecoverPubkey(msg, append([]byte{}, sig...))
+		}
+		if (err == nil) != (err2 == nil) || !bytes.Equal(pk, pk2) {
+			disagree("secp256k1.RecoverPubkey(two libraries)", "msg "+hx.Hex(msg)+" sig "+hx.Hex(sig))
+		}
+		if err == nil {
+			if ok, _ := curveHolds(pk, msg, r, sv); !ok {
+				disagree("secp256k1.RecoverPubkey(curve equation)", "recovered key does not verify: msg "+hx.Hex(msg)+" sig "+hx.Hex(sig))
+			}
+		}
 	}
 	key := "rec=" + hx.Hex(msg) + "," + hx.Hex(pad32(r.Bytes())) + "," + hx.Hex(pad32(sv.Bytes())) + "," + strconv.Itoa(int(recid)) + ","
 	if err != nil {
@@ -168,8 +196,15 @@ func (o *oracle) verCore(pk, msg []byte, r, sv *big.Int) {
 		low = new(big.Int).Sub(secpNConst(), sv)
 	}
 	res := "0"
-	if secp256k1.VerifySignature(pk, msg, append(pad32(r.Bytes()), pad32(low.Bytes())...)) {
+	libOK := secp256k1.VerifySignature(pk, msg, append(pad32(r.Bytes()), pad32(low.Bytes())...))
+	if libOK {
 		res = "1"
+	}
+	if sampled() {
+		refChecks["verify"]++
+		if ok, valid := curveHolds(pk, msg, r, sv); valid && ok != libOK {
+			disagree("secp256k1.VerifySignature(curve equation)", "pk "+hx.Hex(pk)+" msg "+hx.Hex(msg)+" r "+r.Text(16)+" s "+sv.Text(16))
+		}
 	}
 	o.add("ver=" + hx.Hex(pk) + "," + hx.Hex(msg) + "," + hx.Hex(pad32(r.Bytes())) + "," + hx.Hex(pad32(sv.Bytes())) + "," + res)
 }
@@ -273,6 +308,11 @@ type runner struct {
 	tags map[string]int // generator tag -> count
 	res  map[string]int // tag/verdict -> count
 	addrViol []string   // keys whose GetAddress differs from the reference address
+	dump     *os.File
+	hs       hardenStats
+	ret      []retained
+	retMax   int
+	rr       *hx.Rng
 }
 
 func (rn *runner) vt(tag string, c chainCfg, height uint64, tx *types.Transaction) string {
@@ -284,9 +324,26 @@ func (rn *runner) vt(tag string, c chainCfg, height uint64, tx *types.Transactio
 		nativeOracle(o, tx)
 	}
 	line := "vt " + strconv.FormatUint(height, 10) + " " + c.tokens() + " " + txTokens(tx) + o.String()
-	r := rn.out.Do(line, func() string { return verdict(rn.pool.VerifyTransaction(cloneTx(tx), height)) })
+	arg := cloneTx(tx)
+	r := rn.out.Do(line, func() string { return verdict(rn.pool.VerifyTransaction(arg, height)) })
 	rn.tags[tag]++
 	rn.res[tag+"/"+r]++
+	if rn.dump != nil && rn.tags[tag] == 1 && (strings.Contains(tag, "short") || strings.Contains(tag, "hash0") || strings.Contains(tag, "unpadded") || tag == "native-other-height") {
+		fmt.Fprintf(rn.dump, "# %s (%s)\n%s\n", tag, r, strings.Join(strings.Fields(line)[:20], " "))
+	}
+	// retention: the argument must come back unchanged, and verifying the same object again
+	// must give the same verdict
+	x := retained{c, height, tx, r, line}
+	rn.hs.Retention++
+	if !txEqual(arg, tx) {
+		rn.hs.viol("argument-mutated", "VerifyTransaction changed the transaction it was given", x)
+	}
+	if r2 := hx.Guard(func() string { return verdict(rn.pool.VerifyTransaction(arg, height)) }); r2 != r {
+		rn.hs.viol("verdict-not-repeatable", "second VerifyTransaction on the same object: first "+r+", then "+r2, x)
+	}
+	if len(rn.ret) < rn.retMax && (rn.rr.Intn(4) == 0 || strings.Contains(tag, "honest")) {
+		rn.ret = append(rn.ret, x)
+	}
 	return r
 }
 
@@ -388,6 +445,21 @@ var nativeTypes = []int32{0, 1, 2, 3, 7, 99, 100, 187, 189, 200, 600, -1, -188, 
 // honestNative builds and signs a transaction the way a client of the node does:
 // Hash = GenHash(), Sign = PrivateKey.Sign(Hash).
 func (g gen) honestNative(k *ecdsa.PrivateKey, chainId string) *types.Transaction {
+	tx := g.honestNativeRaw(k, chainId)
+	validateHonestNative(k, tx)
+	return tx
+}
+
+// validateHonestNative: the honest material against the independent references.
+func validateHonestNative(k *ecdsa.PrivateKey, tx *types.Transaction) {
+	refChecks["GenHash"]++
+	if gh := tx.GenHash(); gh != tx.Hash {
+		disagree("Transaction.GenHash", "code "+gh.String()+" reference "+tx.Hash.String()+" content "+hx.Hex(harnessSer(tx)))
+	}
+	checkHonestSignature("common.PrivateKey", k, tx.Hash.Bytes(), tx.Sign.Bytes())
+}
+
+func (g gen) honestNativeRaw(k *ecdsa.PrivateKey, chainId string) *types.Transaction {
 	nk := nativeKey(k)
 	tx := &types.Transaction{
 		// the sender's address by definition (independent reference), not whatever GetAddress returns
@@ -405,7 +477,9 @@ func (g gen) honestNative(k *ecdsa.PrivateKey, chainId string) *types.Transactio
 		tx.RequestId = g.r.U64() >> 40
 		tx.SocketRequestId = g.str()
 	}
-	tx.Hash = tx.GenHash()
+	// the digest of the transaction's own content by definition (crypto/sha256 of the harness's
+	// own concatenation), compared with GenHash
+	tx.Hash = common.BytesToHash(refSha256(harnessSer(tx)))
 	s := nk.Sign(tx.Hash.Bytes())
 	tx.Sign = &s
 	return tx
@@ -971,7 +1045,15 @@ func main() {
 		panic(err)
 	}
 	defer out.Close()
-	rn := &runner{out: out, pool: pool, tags: map[string]int{}, res: map[string]int{}}
+	rn := &runner{out: out, pool: pool, tags: map[string]int{}, res: map[string]int{}, retMax: 3000, rr: hx.NewRng(hx.SeedFromEnv() ^ 0xa11a5)}
+	if a["dump"] != "" {
+		rn.dump, _ = os.Create(a["dump"])
+		defer rn.dump.Close()
+	}
+	if a["tier"] == "thorough" {
+		validateEvery = 1
+		rn.retMax = 20000
+	}
 	if mode == "replay" {
 		fmt.Println("IMPL " + replayLine(rn, "replay", a["line"]))
 		return
@@ -1038,12 +1120,33 @@ func main() {
 		if err != nil {
 			panic(err)
 		}
-		wtx, enc, err := wrap(et, eth_tx.NewEIP155Signer(chain))
-		if err != nil {
-			panic(err)
+		et = specV(et, chain)
+		wtx, enc := independentWrap(et, k, chain)
+		{
+			v, rr, ss := et.RawSignatureValues()
+			rec := new(big.Int).Sub(v, new(big.Int).Add(new(big.Int).Mul(chain, big.NewInt(2)), big.NewInt(35)))
+			pre, _ := rlp.EncodeToBytes([]interface{}{et.Nonce(), et.GasPrice(), et.Gas(), et.To(), et.Value(), et.Data(), chain, uint(0), uint(0)})
+			checkHonestSignature("eth_tx.SignTx", k, refKeccak(pre), append(append(pad32(rr.Bytes()), pad32(ss.Bytes())...), byte(rec.Uint64())))
 		}
 		rn.vt("eth-honest", c, height, wtx)
 		rn.conv("conv-honest", chain, enc)
+		// padding classes of the payload signature: r or s with a leading zero byte (31-byte RLP strings)
+		for _, class := range []string{"short-r", "short-s"} {
+			for tries := 0; tries < 1500; tries++ {
+				ce, err := eth_tx.SignTx(g.ethUnsigned(), eth_tx.NewEIP155Signer(chain), k)
+				if err != nil {
+					break
+				}
+				_, rr, ss := ce.RawSignatureValues()
+				if (class == "short-r" && rr.BitLen() <= 248) || (class == "short-s" && ss.BitLen() <= 248) {
+					ce = specV(ce, chain)
+					ctx2, cenc := independentWrap(ce, k, chain)
+					rn.vt("eth-honest-"+class, c, height, ctx2)
+					rn.conv("conv-honest", chain, cenc)
+					break
+				}
+			}
+		}
 		for _, m := range ethFieldMutants(g.r, wtx) {
 			rn.vt("eth-mut-"+m.field, c, height, m.tx)
 		}
@@ -1070,8 +1173,13 @@ func main() {
 			rn.conv("conv-"+pv.name, chain, pv.enc)
 		}
 	}
+	historyPhase(pool, rn.ret, rn.rr, &rn.hs)
 	st := map[string]interface{}{}
 	_ = json.Unmarshal([]byte(out.StatsJSON()), &st)
+	st["hardening"] = map[string]interface{}{"retention_checks": rn.hs.Retention, "history_replays": rn.hs.History,
+		"concurrent_checks": rn.hs.Concurrent, "pool_ops": rn.hs.PoolOps, "reference_checks": refChecks}
+	st["reference_disagreements"] = refDisagree
+	st["hardening_violations"] = rn.hs.Violations
 	st["generators"] = rn.tags
 	st["generator_results"] = rn.res
 	st["selfcheck_fail"] = selfcheckFail
